@@ -690,7 +690,12 @@ func (fr *Frame) applyContract(ct *Contract, fn *ssa.Function, name string, args
 		}
 		goal := c.safeEvalBool(e, r)
 		if c.unitContract != nil {
-			if why, ok := c.unitContract.AssumesPre[short]; ok {
+			why, ok := c.unitContract.AssumesPre[short]
+			if !ok {
+				// "assumespre F/label: reason" assumes one precondition of F only
+				why, ok = c.unitContract.AssumesPre[short+"/"+clauseLabel(r, k)]
+			}
+			if ok {
 				c.assumeG(g, goal)
 				c.trustedUsed["precondition of "+short+" assumed at its call sites in "+c.unitName+" ("+why+"): "+r.Src] = true
 				continue
